@@ -71,6 +71,11 @@ class C12(core.Check):
                                        ['get', 'C%', [12, 1]], ['get', 'A%', [10]],
                                        ['dimx', [['X.1$', [['el', 'Q%', [3], 2]]], ['AB%', [['el', 'Q%', [11], 0]]]]],
                                        ['get', 'X.1$', [2]], ['get', 'Q%', [10]], ['get', 'AB%', [0]]]})
+        # a DIM that fails with a negative bound must not fix the implicit base: OPTION BASE 1 is still accepted
+        # (seed C12f), also as a later item of a DIM statement and after ERASE of the last array
+        c.append({'k': 'hist', 'ops': [['dim', [['A', [-1]]]], ['base', 1], ['dim', [['A', [0]]]], ['dim', [['A', [1]]]],
+                                       ['get', 'A', [0]], ['get', 'A', [1]], ['erase', ['A']], ['clear'],
+                                       ['dim', [['B%', [2, -3]]]], ['base', 1], ['base', 0]]})
         c.append(self.shape_case(None, 'A%', [2, 3]))
         c.append(self.shape_case(1, 'B!', [1, 1, 1]))
         c.append(self.shape_case(1, 'B$', [2, 0]))
@@ -163,6 +168,11 @@ class C12(core.Check):
             return [rng.choice([0, 0, 1, 1, 2, 2, 3, 4, 5, 9, 10, 11, -1, 12]) if rng.random() < 0.5
                     else rng.randint(0, 3) for _ in range(rank)]
         ranks = {}
+        if rng.random() < 0.12:
+            # a failing first DIM (negative bound), then OPTION BASE
+            a = rng.choice(names)
+            ops.append(['dim', [[a, [rng.choice([-1, -2]) if rng.random() < 0.7 else 3, -1][:rng.choice([1, 2])]]]])
+            ops.append(['base', rng.choice([0, 1, 1])])
         n = rng.randint(6, 28)
         for _ in range(n):
             r = rng.random()
